@@ -444,11 +444,11 @@ class Unit:
                     mm = re.match(r'"((?:[^"\\]|\\.)*)"\s*(\w+)?\s*(mut)?', rest)
                     spec['chains'].append((mm.group(1).replace('\\"', '"'), mm.group(2) or 'c', bool(mm.group(3))))
                     cur = None
-                elif kw == 'replace':
+                elif kw in ('replace', 'replaceall'):
                     mm = re.match(r'"((?:[^"\\]|\\.)*)"\s*=>\s*"((?:[^"\\]|\\.)*)"\s*::\s*(.*)$', rest)
                     if not mm:
                         raise TemplateError('bad replace: %s' % rest)
-                    spec['replaces'].append((mm.group(1).replace('\\"', '"').replace('<NL>', '\n'), mm.group(2).replace('\\"', '"').replace('<NL>', '\n'), mm.group(3)))
+                    spec['replaces'].append((mm.group(1).replace('\\"', '"').replace('<NL>', '\n'), mm.group(2).replace('\\"', '"').replace('<NL>', '\n'), mm.group(3) + (' [every occurrence]' if kw == 'replaceall' else '')))
                     cur = None
                 else:
                     raise TemplateError('unknown fn sub-directive %r' % kw)
@@ -513,6 +513,10 @@ class Unit:
             rx = re.sub(r'(?:\\ )+', lambda m: r'\s+', rx)
             hits = list(re.finditer(rx, text))
             cnt = len(hits)
+            if cnt >= 1 and why.endswith(' [every occurrence]'):
+                text = re.sub(rx, lambda m_: new, text)
+                log.append(dict(rule='F', before=old, after=new, reason=why))
+                continue
             if cnt != 1:
                 # the expression this rewrite stands for is gone (or duplicated): leave the text as it is; what
                 # Verus then makes of it (unconstrained result, or unsupported construct) decides
@@ -534,6 +538,7 @@ class Unit:
             text = R.r14_split_or_guard(text, log)
         if 'R15' in rules:
             text = R.r15_iter_wrappers(text, log)
+        text = R.r18_enumerate(text, log)
         if 'R1' in rules:
             text = R.r1_erase_guards(text, log, 'selfmut' in flags)
             text = R.r1_erase_ctor(text, log)
@@ -759,6 +764,19 @@ class Unit:
             p0, kind0, ob0 = loops0[n_ - 1]
             mm0 = re.match(r'for\s+(.*?)\s+in\s+&mut\s+', body[p0:ob0], re.S)
             if not mm0:
+                # R13 (shared form): `for (K, V) in M { B }` over a borrowed HashMap (K, V bound by reference) -> the same key
+                # snapshot, `let K = &KS[I]; let V = map_get_present(M, K);`
+                mm1 = re.match(r'for\s+\(\s*(\w+)\s*,\s*(\w+)\s*\)\s+in\s+', body[p0:ob0], re.S)
+                if mm1 and ent.get('keys'):
+                    expr = body[p0 + mm1.end():ob0].strip()
+                    ks = ent['keys']
+                    iv = ks + '_i'
+                    ls = sn0.line_start(p0)
+                    indent = body[ls:p0]
+                    newhead = 'let %s = map_keys_snapshot(%s);\n%slet mut %s: usize = 0;\n%swhile %s < %s.len() ' % (ks, expr, indent, iv, indent, iv, ks)
+                    first = ' let %s = &%s[%s]; %s += 1; let %s = map_get_present(%s, %s);' % (mm1.group(1), ks, iv, iv, mm1.group(2), expr, mm1.group(1))
+                    log.append(dict(rule='R13', before=norm_ws(body[p0:ob0 + 1]), after=norm_ws(newhead + '{' + first)))
+                    body = body[:p0] + newhead + '{' + first + body[ob0 + 1:]
                 continue
             expr = body[p0 + mm0.end():ob0].strip()
             pat = mm0.group(1)
